@@ -21,8 +21,8 @@ func GenC19Plan(rt *rapid.T, tier string) *G19Plan {
 		maxSteps = 60
 	}
 	// (ordered: rapid prefers the front of the list)
-	kinds := []string{"transfer", "mine", "propose", "vote", "thaw", "stake", "transfer2", "unstake", "unlock", "lock", "init", "sync"}
-	weight := map[string]int{"transfer": 8, "mine": 8, "propose": 5, "vote": 6, "thaw": 3, "stake": 3, "transfer2": 2, "unstake": 2, "unlock": 2, "lock": 1, "init": 1, "sync": 0}
+	kinds := []string{"transfer", "mine", "propose", "vote", "thaw", "stake", "transfer2", "unstake", "unlock", "lock", "init", "sync", "tnominate", "tvote", "trevoke", "trevokevote"}
+	weight := map[string]int{"transfer": 8, "mine": 8, "propose": 5, "vote": 6, "thaw": 3, "stake": 3, "transfer2": 2, "unstake": 2, "unlock": 2, "lock": 1, "init": 1, "sync": 0, "tnominate": 3, "tvote": 2, "trevoke": 3, "trevokevote": 2}
 	if pl.Nodes > 1 {
 		weight["sync"] = 4
 	}
